@@ -23,8 +23,9 @@ COMPONENTS = {"real": ["amaranth.hdl._cd.ClockDomain", "amaranth.hdl._xfrm (Rese
                        "amaranth.hdl._ir (domain propagation)", "amaranth.sim._pyrtl (edge wakers, reset block)", "amaranth.sim.pysim"],
               "stub": ["PermSet scheduler seam", "clock/reset driver", "reference interpreter (dsim/refint.py)"]}
 EXPECTED_PROBES = ("sched", "coincide", "inactive", "srst", "arst", "gate", "reset_inserter", "enable_inserter", "domain_renamer",
-                   "async_domain", "negedge_domain", "reset_less_signal", "edge_under_reset", "submodules", "obs_changes")
-OPTS = {"max_domains": 3, "max_modules": 4, "wrappers": True, "prints": False, "fsm": True, "max_stmts": 6, "depth": 1}
+                   "async_domain", "negedge_domain", "reset_less_signal", "edge_under_reset", "submodules", "obs_changes",
+                   "clock_signal_read", "reset_signal_read")
+OPTS = {"max_domains": 3, "max_modules": 4, "wrappers": True, "prints": False, "fsm": True, "max_stmts": 6, "depth": 1, "clock_reads": True}
 
 
 def gen_case(seed, tier):
